@@ -9,6 +9,39 @@ import time
 import traceback
 
 
+def history_pass(ctx, prop, out):
+    """Re-evaluate the remembered calls in a fresh interpreter, in reverse order, and compare (history independence)."""
+    import subprocess
+    calls = [[f, a, k] for f, a, k, _ in ctx.history]
+    fin, fout = out + ".calls.json", out + ".isolated.json"
+    with open(fin, "w") as f:
+        json.dump(calls, f, ensure_ascii=False)
+    env = dict(os.environ)
+    try:
+        subprocess.run([sys.executable, "-m", "vf.isolate", fin, fout], env=env, timeout=300, check=True, capture_output=True)
+        res = json.load(open(fout))
+    except Exception as e:
+        ctx.notes["history_pass"] = "not run: %r" % (e,)
+        return
+    finally:
+        for p in (fin, fout):
+            try:
+                os.remove(p)
+            except OSError:
+                pass
+    n = 0
+    for (func, args, kwargs, r1), r2 in zip(ctx.history, res):
+        n += 1
+        a, b = json.loads(r1), json.loads(r2)
+        if isinstance(a, (list, tuple)):
+            a = list(a)
+        if a != b and json.dumps(a, ensure_ascii=False) != json.dumps(b, ensure_ascii=False):
+            ctx.viol("%s:history-dependent-result:%s" % (prop, func.split(":")[1]), {"history_call": [func, args, kwargs]},
+                     {"in_workload_order": a, "fresh_process_reverse_order": b})
+    ctx.count("history-calls-rechecked", n)
+    ctx.ev(n)
+
+
 def main(argv):
     prop, tier, seed, shard, nshards, out = argv[:6]
     replay_file = argv[6] if len(argv) > 6 else None
@@ -47,9 +80,12 @@ def main(argv):
             r = mod.run(ctx)
             if isinstance(r, dict):
                 extra.update(r)
+            extra["side_effects"] = sorted(set(side_effects))[:20]  # (the history pass below spawns a process of our own)
+            if ctx.history:
+                history_pass(ctx, prop, out)
     except BaseException as e:  # a harness crash is inconclusive, never "held"
         extra["harness_error"] = "".join(traceback.format_exception(type(e), e, e.__traceback__))[-4000:]
-    extra["side_effects"] = sorted(set(side_effects))[:20]
+    extra.setdefault("side_effects", sorted(set(side_effects))[:20])
     extra["flags"] = {
         "dev_mode": sys.flags.dev_mode,
         "bytes_warning": sys.flags.bytes_warning,
